@@ -323,6 +323,221 @@ fn cond_case(out: &mut Out, rng: &mut SplitMix64, skipped: &mut usize, zero_shot
     }
 }
 
+// ------------------------------------------------------------------------------------------------
+// per-shot STATE-VECTOR requests (`cstep`): conditional gates whose effect is not a basis permutation
+
+/// One `cstep` request for the conditional gate at position `pos` (>= 1) of a traced run: the full snapshot (ranges and
+/// amplitude vectors) and register just before it + the operation in the text grammar of harness/src/sim.rs with the
+/// CURRENT values of all parameters; answer = snapshot and register just after.  Model mode: the Lean simulator model executes
+/// the one operation (Driver/SimStep); spec mode: per shot, the reference semantics (gate matrix on the matching shots, nothing
+/// on the others).
+fn emit_cstep(out: &mut Out, tag: &str, op_text: &str, trace: &[q1tsim::verif::TraceEntry], pos: usize)
+{
+    let (before, after) = (&trace[pos - 1], &trace[pos]);
+    out.case(&format!("cstep {} | {} | {} | {} | 0", tag, op_text, sim::show_snapshot(&before.snapshot), ju(&before.cstate)),
+        &format!("ok | {} | {}", sim::show_snapshot(&after.snapshot), ju(&after.cstate)));
+}
+
+const ANGLES: [f64; 8] = [0.0, std::f64::consts::PI, std::f64::consts::FRAC_PI_2, -std::f64::consts::FRAC_PI_2, 1.0, -2.25, std::f64::consts::FRAC_PI_4, 3.0];
+const NCELLS: usize = 3;
+
+/// a gate term on `k` qubits in which at least one parameter is a REFERENCE (`@c`: Rc<RefCell<f64>>, `*c`: raw pointer)
+fn ref_term(k: usize, rng: &mut SplitMix64) -> String
+{
+    let r = |rng: &mut SplitMix64| format!("{}{}", if rng.below(4) == 0 { '*' } else { '@' }, rng.below(NCELLS as u64));
+    let d = |rng: &mut SplitMix64| fbits(*rng.pick(&ANGLES));
+    let one = |rng: &mut SplitMix64| -> String {
+        match rng.below(9)
+        {
+            0 | 1 | 2 => format!("U1 {}", r(rng)),
+            3 => format!("RX {}", r(rng)), 4 => format!("RY {}", r(rng)), 5 => format!("RZ {}", r(rng)),
+            6 => { let m = 1 + rng.below(3); format!("U2 {} {}", if m & 1 != 0 { r(rng) } else { d(rng) }, if m & 2 != 0 { r(rng) } else { d(rng) }) },
+            7 => { let m = 1 + rng.below(7); format!("U3 {} {} {}", if m & 1 != 0 { r(rng) } else { d(rng) }, if m & 2 != 0 { r(rng) } else { d(rng) }, if m & 4 != 0 { r(rng) } else { d(rng) }) },
+            _ => format!("Comp g{} 1 2 U1 {} 1 0 H 1 0", rng.below(10), r(rng)),
+        }
+    };
+    match k
+    {
+        1 => one(rng),
+        2 => match rng.below(9)
+        {
+            0 | 1 => format!("CU1 {}", r(rng)),
+            2 => format!("{} {}", rng.pick(&["CRX", "CRY", "CRZ"]), r(rng)),
+            3 => format!("C {}", one(rng)),
+            4 => format!("Kron {} {}", one(rng), rng.pick(&["H", "X", "S", "I"])),
+            5 => format!("Kron {} {}", rng.pick(&["H", "X", "T", "I"]), one(rng)),
+            6 => format!("Comp g{} 2 2 {} 1 {} CX 2 {}", rng.below(10), one(rng), rng.below(2), if rng.coin() { "0 1" } else { "1 0" }),
+            7 => format!("Loop l{} {} b{} 2 1 CU1 {} 2 {}", rng.below(10), 1 + rng.below(3), rng.below(10), r(rng), if rng.coin() { "0 1" } else { "1 0" }),
+            _ => format!("Kron {} {}", one(rng), one(rng)),
+        },
+        _ => match rng.below(5)
+        {
+            0 => format!("{} {}", rng.pick(&["CCRX", "CCRY", "CCRZ"]), r(rng)),
+            1 => format!("C CU1 {}", r(rng)),
+            2 => format!("Kron {} CX", one(rng)),
+            3 => format!("Kron CU1 {} {}", r(rng), rng.pick(&["H", "X"])),
+            _ => { let mut b = vec![0usize, 1, 2]; rng.shuffle(&mut b); format!("Comp g{} 3 2 CU1 {} 2 {} {} {} 1 {}", rng.below(10), r(rng), b[0], b[1], one(rng), b[2]) },
+        }
+    }
+}
+
+/// Conditional gates with REFERENCE-valued parameters (every gate that can hold one: RX RY RZ U1 U2 U3 CRX CRY CRZ CU1 CCR*,
+/// bare and inside C / Kron / Composite / Loop), vector backend: the cells hold one set of values while the circuit is BUILT,
+/// are overwritten before the first run and again before every later run (execute, change, reexecute / execute again on the
+/// same object).  Every run must apply, on exactly the matching shots, the gate with the values the cells hold AT THAT RUN.
+fn refparam_case(out: &mut Out, rng: &mut SplitMix64)
+{
+    use rand::SeedableRng;
+    use q1tsim::circuit::{Circuit, QuStateRepr};
+    let cells: Vec<std::rc::Rc<std::cell::RefCell<f64>>> = (0..NCELLS).map(|_| std::rc::Rc::new(std::cell::RefCell::new(*rng.pick(&ANGLES)))).collect();
+    gate::set_cells(&cells);
+    let nq = 2 + rng.below(3) as usize;           // qubit 0 is the coin
+    let nc = 2 + rng.below(3) as usize;
+    let shots = 2 + rng.below(if thorough() { 20 } else { 10 }) as usize;
+    let mut ops: Vec<String> = vec!["gate 1 0 H".to_string(), "measure 0 0 Z".to_string()];
+    if rng.below(3) == 0 && nq >= 3 { ops.push(format!("gate 1 {} H", nq - 1)); ops.push(format!("measure {} 1 Z", nq - 1)); }
+    for q in 1..nq { match rng.below(5) { 0 | 1 | 2 => ops.push(format!("gate 1 {} H", q)), 3 => ops.push(format!("gate 1 {} RY {}", q, fbits(0.4 + rng.unit() * 2.0))), _ => ops.push(format!("gate 1 {} X", q)) } }
+    let mut conds: Vec<usize> = vec![];
+    for _ in 0..(1 + rng.below(2))
+    {
+        let k = 1 + rng.below((nq - 1).min(3) as u64) as usize;
+        let mut bits: Vec<usize> = (1..nq).collect(); rng.shuffle(&mut bits); bits.truncate(k);
+        let (ncb, ctl, target) = if rng.below(3) == 0 { (2, "0 1".to_string(), rng.below(4)) } else { (1, "0".to_string(), rng.below(2)) };
+        conds.push(ops.len());
+        ops.push(format!("cond {} {} {} {} {} {}", ncb, ctl, target, k, join(&bits), ref_term(k, rng)));
+        if rng.coin() { ops.push(format!("gate 1 {} H", 1 + rng.below(nq as u64 - 1))); }
+    }
+    for q in 1..nq { if rng.coin() { ops.push(format!("measure {} {} Z", q, rng.below(nc as u64))); } }
+    let mut c = Circuit::new(nq, nc);
+    for op in ops.iter() { if let Err(e) = sim::add_op(&mut c, op) { out.case(&format!("cstep-unexpected-error build {}", op), &format!("err {:?}", e).replace('\n', " ")); return; } }
+    let mut hist: Vec<String> = vec![];
+    for run in 0..(2 + rng.below(3) as usize)
+    {
+        // overwrite the cells (at least the first one changes)
+        for (i, cell) in cells.iter().enumerate()
+        {
+            if i == 0 || rng.coin() { let old = *cell.borrow(); let mut v = *rng.pick(&ANGLES); if v == old { v = old + 1.5; } *cell.borrow_mut() = v; }
+        }
+        let mut r = rand::rngs::StdRng::seed_from_u64(rng.next());
+        let re = run > 0 && rng.coin();
+        hist.push(if re { "reexecute" } else { "execute" }.to_string());
+        q1tsim::verif::trace_start();
+        let res = std::panic::catch_unwind(std::panic::AssertUnwindSafe(|| if re { c.reexecute_with_rng(&mut r) } else { c.execute_with(shots, &mut r, QuStateRepr::vector(nq, shots)) }));
+        let trace = q1tsim::verif::trace_take();
+        match res
+        {
+            Ok(Ok(())) if trace.len() == ops.len() => {
+                let vals = cells.iter().map(|x| fbits(*x.borrow())).collect::<Vec<_>>().join(",");
+                for &pos in conds.iter()
+                {
+                    emit_cstep(out, &format!("ref built:{} runs:{} cells:{}", ops[pos].split_whitespace().filter(|t| t.starts_with('@') || t.starts_with('*')).collect::<Vec<_>>().join(","), hist.join(","), vals),
+                        &gate::resolve_refs(&ops[pos]), &trace, pos);
+                }
+            },
+            Ok(Ok(())) => { out.case(&format!("cstep-unexpected-error trace-length {}", ops.join(" ; ")), "err trace"); return; },
+            Ok(Err(e)) => { out.case(&format!("cstep-unexpected-error run {}", ops.join(" ; ")), &format!("err {:?}", e).replace('\n', " ")); return; },
+            Err(_) => { out.case(&format!("cstep-unexpected-panic {}", ops.join(" ; ")), "panic"); return; }
+        }
+    }
+}
+
+/// (C-interface name, term token, qubits, parameters) for EVERY gate name of `circuit_add_conditional_gate`
+const FFI_GATES: [(&str, &str, usize, usize); 25] = [("ch", "CH", 2, 0), ("crx", "CRX", 2, 1), ("cry", "CRY", 2, 1), ("crz", "CRZ", 2, 1), ("cx", "CX", 2, 0),
+    ("cy", "CY", 2, 0), ("cz", "CZ", 2, 0), ("h", "H", 1, 0), ("i", "I", 1, 0), ("rx", "RX", 1, 1), ("ry", "RY", 1, 1), ("rz", "RZ", 1, 1), ("s", "S", 1, 0),
+    ("sdg", "Sdg", 1, 0), ("swap", "Swap", 2, 0), ("t", "T", 1, 0), ("tdg", "Tdg", 1, 0), ("u1", "U1", 1, 1), ("u2", "U2", 1, 2), ("u3", "U3", 1, 3),
+    ("v", "V", 1, 0), ("vdg", "Vdg", 1, 0), ("x", "X", 1, 0), ("y", "Y", 1, 0), ("z", "Z", 1, 0)];
+
+/// The conditional circuits BUILT THROUGH THE C INTERFACE (`circuit_new`, `circuit_add_gate`, `circuit_measure`,
+/// `circuit_add_conditional_gate` with the gate given by NAME and its parameters as CParameter values or pointers), for the
+/// gate `FFI_GATES[gi]`: a coin is measured into bit 0 (so some shots match and some do not), the other qubits are superposed,
+/// then the conditional gate.  The object is then executed with the trace hook: `cstep` request as for the Rust API; the same
+/// circuit built through the Rust API and executed with the same seed must give the same trace (`ffisame`); and a control
+/// list with an out-of-range bit must be refused by both interfaces (`ffierr`).
+fn ffi_cond_case(out: &mut Out, rng: &mut SplitMix64, gi: usize)
+{
+    use q1tsim::ffi;
+    use rand::SeedableRng;
+    use q1tsim::circuit::{Circuit, QuStateRepr};
+    use std::os::raw::c_char;
+    #[repr(C)] #[derive(Clone, Copy)]
+    struct RawResult { data: *const std::os::raw::c_void, length: usize, size: usize, restype: u32 }
+    #[repr(C)] #[derive(Clone, Copy)]
+    struct RawParam { value: f64, value_ptr: *const f64 }
+    fn is_ok(r: ffi::CResult) -> bool { let rr = unsafe { std::mem::transmute::<ffi::CResult, RawResult>(r) }; let good = rr.restype != 0;
+        ffi::result_free(unsafe { std::mem::transmute::<RawResult, ffi::CResult>(rr) }); good }
+    let (name, tok, arity, npar) = FFI_GATES[gi];
+    let nq = 1 + arity + rng.below(2) as usize;
+    let nc = 2 + rng.below(3) as usize;
+    let shots = 2 + rng.below(if thorough() { 20 } else { 10 }) as usize;
+    // parameters: plain values, now and then a pointer whose target is overwritten after the gate was added
+    let store: Vec<Box<f64>> = (0..npar).map(|_| Box::new(*rng.pick(&ANGLES))).collect();
+    let by_ptr: Vec<bool> = (0..npar).map(|_| rng.below(3) == 0).collect();
+    let params: Vec<RawParam> = (0..npar).map(|j| if by_ptr[j] { RawParam { value: 0.0, value_ptr: &*store[j] as *const f64 } } else { RawParam { value: *store[j], value_ptr: std::ptr::null() } }).collect();
+    let pptr = if npar == 0 { std::ptr::null() } else { params.as_ptr() as *const ffi::CParameter };
+    let mut bits: Vec<usize> = (1..nq).collect(); rng.shuffle(&mut bits); bits.truncate(arity);
+    let (control, target): (Vec<usize>, u64) = if rng.below(3) == 0 { (vec![0, 1], rng.below(4)) } else { (vec![0], rng.below(2)) };
+    let gname = std::ffi::CString::new(if rng.below(4) == 0 { name.to_uppercase() } else { name.to_string() }).unwrap();
+    let hname = std::ffi::CString::new("h").unwrap();
+    // text of the circuit (Rust API twin, Lean reference); parameter values are substituted below, after the overwrite
+    let mut pre: Vec<String> = vec!["gate 1 0 H".to_string(), "measure 0 0 Z".to_string()];
+    let second_coin = control.len() == 2 && nq >= 3;
+    if second_coin { pre.push(format!("gate 1 {} H", nq - 1)); pre.push(format!("measure {} 1 Z", nq - 1)); }
+    for q in 1..nq { if rng.below(4) != 0 { pre.push(format!("gate 1 {} H", q)); } }
+    let ptr = ffi::circuit_new(nq, nc);
+    let mut good = true;
+    for op in pre.iter()
+    {
+        let t: Vec<&str> = op.split_whitespace().collect();
+        if t[0] == "gate" { let b = [t[2].parse::<usize>().unwrap()]; good &= is_ok(ffi::circuit_add_gate(ptr, hname.as_ptr(), b.as_ptr(), 1, std::ptr::null(), 0)); }
+        else { good &= is_ok(ffi::circuit_measure(ptr, t[1].parse().unwrap(), t[2].parse().unwrap(), 'z' as c_char, 1)); }
+    }
+    // an out-of-range control bit must be refused (before the valid gate is added), exactly as the Rust API refuses it
+    let bad_ctl = vec![0usize, nc + rng.below(2) as usize];
+    let ffi_refused = !is_ok(ffi::circuit_add_conditional_gate(ptr, bad_ctl.as_ptr(), 2, target, gname.as_ptr(), bits.as_ptr(), bits.len(), pptr, npar));
+    good &= is_ok(ffi::circuit_add_conditional_gate(ptr, control.as_ptr(), control.len(), target, gname.as_ptr(), bits.as_ptr(), bits.len(), pptr, npar));
+    // overwrite the pointed-to values: the gate must follow them
+    let mut store = store;
+    for j in 0..npar { if by_ptr[j] { let old = *store[j]; let mut v = *rng.pick(&ANGLES); if v == old { v = old + 1.5; } *store[j] = v; } }
+    let term = format!("{}{}", tok, store.iter().map(|v| format!(" {}", fbits(**v))).collect::<String>());
+    let cond_text = format!("cond {} {} {} {} {} {}", control.len(), join(&control), target, arity, join(&bits), term);
+    let desc = format!("{} nq={} nc={} params={}", name, nq, nc, by_ptr.iter().map(|b| if *b { "ptr" } else { "val" }).collect::<Vec<_>>().join(","));
+    // the Rust-API twin
+    let mut twin = Circuit::new(nq, nc);
+    let mut twin_ok = true;
+    for op in pre.iter() { twin_ok &= sim::add_op(&mut twin, op).is_ok(); }
+    let bad_text = format!("cond 2 {} {} {} {} {}", join(&bad_ctl), target, arity, join(&bits), term);
+    let rust_refused = sim::add_op(&mut twin, &bad_text).is_err();
+    twin_ok &= sim::add_op(&mut twin, &cond_text).is_ok();
+    out.case(&format!("ffierr {} | invalid control {} | {}", desc, join(&bad_ctl), bad_text),
+        &if ffi_refused == rust_refused && ffi_refused { "same".to_string() } else { format!("differs c-interface-refused={} rust-api-refused={}", ffi_refused, rust_refused) });
+    if !good || !twin_ok
+    {
+        out.case(&format!("ffisame {} | build | {}", desc, cond_text), &format!("differs c-interface-built={} rust-api-built={}", good, twin_ok));
+        ffi::circuit_free(ptr);
+        return;
+    }
+    let seed = rng.next();
+    let run = |c: &mut Circuit| -> Option<Vec<q1tsim::verif::TraceEntry>> {
+        let mut r = rand::rngs::StdRng::seed_from_u64(seed);
+        q1tsim::verif::trace_start();
+        let res = std::panic::catch_unwind(std::panic::AssertUnwindSafe(|| c.execute_with(shots, &mut r, QuStateRepr::vector(nq, shots))));
+        let t = q1tsim::verif::trace_take();
+        if matches!(res, Ok(Ok(()))) { Some(t) } else { None }
+    };
+    let t_ffi = run(unsafe { &mut *ptr });
+    let t_twin = run(&mut twin);
+    ffi::circuit_free(ptr);
+    match (t_ffi, t_twin)
+    {
+        (Some(tf), Some(tt)) if tf.len() == pre.len() + 1 => {
+            emit_cstep(out, &format!("ffi {}", desc), &cond_text, &tf, pre.len());
+            let same = tf.len() == tt.len() && tf.iter().zip(tt.iter()).all(|(a, b)| a.cstate == b.cstate && sim::show_snapshot(&a.snapshot) == sim::show_snapshot(&b.snapshot));
+            out.case(&format!("ffisame {} | trace | {}", desc, cond_text), if same { "same" } else { "differs per-shot-states-or-registers-differ-from-the-rust-api-circuit" });
+        },
+        (a, b) => out.case(&format!("ffisame {} | run | {}", desc, cond_text), &format!("differs c-interface-ran={} rust-api-ran={}", a.is_some(), b.is_some()))
+    }
+}
+
 fn main()
 {
     let dir = std::env::args().nth(1).expect("usage: c07 <outdir>");
@@ -371,6 +586,9 @@ fn main()
     for k in 0..ncirc { cond_case(&mut out, &mut rng, &mut skipped, k % 50 == 49, k % 50 != 49 && k % 5 == 4); }
     // feedback circuits executed again on the same object
     for _ in 0..(if thorough() { 4000 } else { 800 }) { feedback_case(&mut out, &mut rng, &mut skipped); }
+    // conditional gates with reference-valued parameters; conditional gates built through the C interface (every gate name)
+    for _ in 0..(if thorough() { 3000 } else { 600 }) { refparam_case(&mut out, &mut rng); }
+    for k in 0..(if thorough() { 2500 } else { 500 }) { ffi_cond_case(&mut out, &mut rng, k % FFI_GATES.len()); }
     let n = out.finish();
     eprintln!("c07: {} cases ({} circuits skipped: state not a basis state)", n, skipped);
 }
